@@ -114,6 +114,7 @@ func (s *Supervisor) checkScan(rec *ScanRecord) {
 			x.c18()
 			x.c19()
 			x.c19Fatal()
+			x.c20Recovery()
 		}
 		// advance the lock model: an accepted cloud increase arms it
 		if !gs.Dry {
@@ -365,6 +366,53 @@ func (x *scanCtx) c02() {
 					x.viol("C02", "c02-lock-outlived", "", "", fmt.Sprintf("cool-down %v elapsed %v ago, bands=%v prescribe action, yet the scan did nothing", g.CoolDown, gs.TList.Sub(lm.At)-g.CoolDown, bandList(a)))
 				}
 			}
+		}
+	}
+}
+
+// expectsAction: the view alone prescribes at least one call for this group
+// (a taint, an untaint or a cloud request), whatever the rounding of the amount.
+func (x *scanCtx) expectsAction() (bool, string) {
+	a, gs := x.a, x.gs
+	k := a.KnownEnd
+	headroom := k != nil && k.Valid && k.Desired < boundOf(gs, k)
+	switch a.Kind {
+	case kNormal:
+		if exp, strict := x.expectedTaints(); strict && exp > 0 && !a.StarveMay && !a.AgeMay {
+			return true, fmt.Sprintf("band %v prescribes %d taints", bandList(a), exp)
+		}
+		if onlyBand(a, "up") && (len(a.Tainted) > 0 || headroom) {
+			return true, "utilisation above the scale-up threshold with capacity available"
+		}
+	case kBelowMin:
+		if len(a.Tainted) > 0 || headroom {
+			return true, "fewer untainted nodes than min_nodes with capacity available"
+		}
+	case kFromZero:
+		if len(a.Tainted) > 0 || headroom {
+			return true, "pods waiting on a group with no untainted node"
+		}
+	}
+	return false, ""
+}
+
+// c20Recovery: after a transient failure the next scan proceeds normally.
+func (x *scanCtx) c20Recovery() {
+	a, gs, g := x.a, x.gs, x.g
+	last, ok := x.s.lastFailure[g.Name]
+	if ok && last.life == x.rec.Life && x.rec.Index-last.scan <= 3 && a.Clean && !a.Locked && !gs.Dry {
+		if exp, why := x.expectsAction(); exp {
+			x.check("c20-recovery")
+			x.s.stats.Probe("clean scan right after a failed action")
+			if len(gs.Calls) == 0 {
+				x.viol("C20", "c20-recovery", "", last.what, fmt.Sprintf("scan %d met a failure (%s); %d scan(s) later, with no fault and no cool-down in force, %s, yet the scan did nothing", last.scan, last.what, x.rec.Index-last.scan, why))
+			}
+		}
+	}
+	// remember failures of this scan
+	for _, c := range gs.Calls {
+		if c.Err != "" && c.Fault != "" && c.Fault != "409-natural" {
+			x.s.lastFailure[g.Name] = failureNote{scan: x.rec.Index, life: x.rec.Life, what: c.Op + " " + c.Fault}
 		}
 	}
 }
